@@ -277,3 +277,72 @@ func VH_c11_mp_nexthops() {
 	vAssert(seen == 2, "an IPv6 announcement was dropped or duplicated")
 	vReach("end")
 }
+
+// C11 (IPv4 routes with an IPv6 next hop, RFC 8950, on an ADD-PATH session): two paths of one
+// prefix under different (symbolic) path identifiers, each with its own next hop. The messages,
+// serialised and parsed back under the same options, give the receiver both paths under their own
+// identifiers and next hops; a withdrawal removes exactly its identifier.
+func VH_c11_v4_over_v6() {
+	nlri, _ := bgp.NewIPAddrPrefix(netip.MustParsePrefix("10.20.30.0/24"))
+	id1, id2 := vU32("path_id"), vU32("path_id")
+	vAssume(id1 != 0 && id2 != 0 && id1 != id2)
+	mk := func(id uint32, nh byte, withdraw bool) *Path {
+		mp, _ := bgp.NewPathAttributeMpReachNLRI(bgp.RF_IPv4_UC, []bgp.PathNLRI{{NLRI: nlri}}, netip.AddrFrom16([16]byte{0x20, 0x01, 0xd, 0xb8, 15: nh}))
+		attrs := []bgp.PathAttributeInterface{bgp.NewPathAttributeOrigin(0),
+			bgp.NewPathAttributeAsPath([]bgp.AsPathParamInterface{bgp.NewAs4PathParam(bgp.BGP_ASPATH_ATTR_TYPE_SEQ, []uint32{65001})}), mp}
+		p := &Path{info: &originInfo{nlri: nlri, nlriString: "10.20.30.0/24", source: localSource}, pathAttrs: attrs, family: bgp.RF_IPv4_UC, IsWithdraw: withdraw}
+		p.localID = id
+		return p
+	}
+	ps := []*Path{mk(id1, 1, false), mk(id2, 2, false)}
+	if vBool("then_withdraw_first") {
+		ps = append(ps, mk(id1, 1, true))
+	}
+	opt := &bgp.MarshallingOption{AddPath: map[bgp.Family]bgp.BGPAddPathMode{bgp.RF_IPv4_UC: bgp.BGP_ADD_PATH_BOTH}}
+	// the receiver's table: one slot per identifier in use, anything else is recorded as a stray
+	var have [2]bool
+	var nhOf [2]byte
+	stray := false
+	put := func(id uint32, nh byte, present bool) {
+		switch id {
+		case id1:
+			have[0], nhOf[0] = present, nh
+		case id2:
+			have[1], nhOf[1] = present, nh
+		default:
+			stray = true
+		}
+	}
+	for _, m := range CreateUpdateMsgFromPaths(ps, opt) {
+		b, err := m.Serialize(opt)
+		vAssert(err == nil && len(b) <= 4096, "a message of the packer cannot be serialised within the limit")
+		if err != nil {
+			return
+		}
+		back, err := bgp.ParseBGPMessage(b, opt)
+		vAssert(err == nil, "a message of the packer does not parse under the session's options")
+		if err != nil {
+			return
+		}
+		u := back.Body.(*bgp.BGPUpdate)
+		for _, w := range u.WithdrawnRoutes {
+			put(w.ID, 0, false)
+		}
+		for _, a := range u.PathAttributes {
+			switch x := a.(type) {
+			case *bgp.PathAttributeMpReachNLRI:
+				for _, n := range x.Value {
+					put(n.ID, x.Nexthop.As16()[15], true)
+				}
+			case *bgp.PathAttributeMpUnreachNLRI:
+				for _, n := range x.Value {
+					put(n.ID, 0, false)
+				}
+			}
+		}
+	}
+	vAssert(!stray, "a path arrives under a path identifier that is not its own")
+	vAssert(have[0] == (len(ps) == 2) && have[1], "the receiver does not hold one path per announced and un-withdrawn path identifier")
+	vAssert((!have[0] || nhOf[0] == 1) && nhOf[1] == 2, "a path does not arrive with its own next hop")
+	vReach("end")
+}
